@@ -31,6 +31,9 @@ FS = {"flavor": "f64", "kind": "counter", "counter": False, "threads": ["t1", "t
       "scripts": {"t1": [{"k": "incby", "v": 1}, {"k": "get"}], "t2": [{"k": "incby", "v": 2}] * 16}}
 
 
+# reads through the scrape path (Metric::metric, what collect() and gather() call)
+FM = {"flavor": "f64", "kind": "counter", "counter": True, "threads": ["t1", "t2", "t3"],
+      "scripts": {"t1": [{"k": "incby", "v": 1}, {"k": "get", "via": "metric"}, {"k": "incby", "v": 4}], "t2": [{"k": "incby", "v": 2}, {"k": "get", "via": "metric"}], "t3": [{"k": "get", "via": "metric"}, {"k": "get"}]}}
 # a float counter incremented by +Inf: the value is +Inf from then on (sums saturate), everything else still applies
 FX = {"flavor": "f64", "kind": "counter", "counter": False, "threads": ["t1", "t2", "t3"],
       "scripts": {"t1": [{"k": "incby", "v": "+Inf"}, {"k": "get"}], "t2": [{"k": "incby", "v": 1}, {"k": "get"}, {"k": "incby", "v": 2}], "t3": [{"k": "get"}, {"k": "lflush", "vs": [4]}, {"k": "get"}]}}
@@ -56,10 +59,12 @@ def run(ctx):
         run_scenario(ctx, "C01", exe, FI3, "FI3", stats, samples, *O, model=True, nrandom=300, kinds=["counter", "countervec_child"])
         run_scenario(ctx, "C01", exe, II3, "II3", stats, samples, *O, model=False, nrandom=100, kinds=["intcounter"])
         run_scenario(ctx, "C01", exe, FS, "FS", stats, samples, *O, model=False, nrandom=10, kinds=["counter"], check=False)
+        run_scenario(ctx, "C01", exe, FM, "FM", stats, samples, *O, model=False, nrandom=100, kinds=["counter", "intcounter"], check=False)
         run_scenario(ctx, "C01", exe, FX, "FX", stats, samples, *O, model=False, nrandom=100, kinds=["counter", "countervec_child"], check=False)
         run_scenario(ctx, "C01", exe, FXL, "FXL", stats, samples, *O, model=False, nrandom=40, kinds=["counter"], check=False)
     else:
         run_scenario(ctx, "C01", exe, FS, "FS", stats, samples, *O, model=False, nrandom=300, kinds=["counter", "countervec_child"], check=False)
+        run_scenario(ctx, "C01", exe, FM, "FM", stats, samples, *O, model=False, nrandom=3000, kinds=["counter", "intcounter", "countervec_child"], check=False)
         run_scenario(ctx, "C01", exe, FX, "FX", stats, samples, *O, model=False, nrandom=3000, kinds=["counter", "countervec_child"], check=False)
         run_scenario(ctx, "C01", exe, FXL, "FXL", stats, samples, *O, model=False, nrandom=1000, kinds=["counter", "countervec_child"], check=False)
         run_scenario(ctx, "C01", exe, FI3, "FI3", stats, samples, *O, model=True, nrandom=5000, kinds=["counter", "countervec_child"])
